@@ -41,7 +41,7 @@ Proof.
     split. apply fold_mut_locks. simpl. apply regs_held.
   - inv H. split. apply note_full_locks. simpl. apply note_branch_held.
   - inv H. auto.
-  - destruct k; inv H; split; auto. apply to_script_held. apply to_script_held.
+  - destruct k; try destruct (Nat.eqb p P_init); inv H; split; auto; apply to_script_held.
   - inv H. split; auto. apply to_script_held.
 Qed.
 
